@@ -79,7 +79,8 @@ ParaOfPos(prs, i) == LET c == {j \in 1..Len(prs) : prs[j][1] <= i /\ i <= prs[j]
 OracleConsistent(e) ==
   LET prs == ParaRanges(e) IN
   /\ Len(e.paras) = Len(prs)
-  /\ e.o.sep = "uax" => \A j \in 1..Len(prs) : e.paras[j].st = StripSeq(ParaText(e, prs, j))
+  /\ e.o.sep = "uax" => \A j \in 1..Len(prs) : /\ e.paras[j].st = StripSeq(ParaText(e, prs, j))
+                                                  /\ OppsSane(ParaText(e, prs, j), ToSet(e.paras[j].opps))
 
 (* ---------- C08 ---------- *)
 C08ok(e) == Len(e.lines) >= 1 /\ \A k \in 1..Len(e.lines) : StartsWith(e.lines[k].s, IndentOfK(e.o, k))
